@@ -6,6 +6,7 @@
 -/
 import CocaVerif.Drv.Call
 import CocaVerif.Drv.Bs
+import CocaVerif.Drv.Stats
 open Lean
 
 partial def loop {σ : Type} (h : IO.FS.Stream) (out : IO.FS.Stream) (step : σ → Json → σ × Json) (st : σ) : IO Unit := do
@@ -29,4 +30,5 @@ def main (args : List String) : IO UInt32 := do
   match args with
   | ["call"] => loop stdin stdout CocaVerif.Drv.Call.step {}; return 0
   | ["bs"] => loop stdin stdout CocaVerif.Drv.Bs.step (); return 0
+  | ["stats"] => loop stdin stdout CocaVerif.Drv.Stats.step (); return 0
   | _ => IO.eprintln "usage: driver <family>"; return 2
